@@ -191,6 +191,27 @@ func c06Roundtrip(c *vlib.Ctx) {
 			}
 			c.End()
 		}
+		// single-byte sweep of some seeds: every position x the sweep values (separators and escapes of text-like fields
+		// included) - values such as a DNS label containing a dot only arise from decoding, never from building
+		for si := 0; si < min(len(cp.Seeds[t]), c.Pick(3, 40)); si++ {
+			idx++
+			if !c.Begin(idx) {
+				continue
+			}
+			seed := cp.Seeds[t][(si*5)%len(cp.Seeds[t])]
+			if len(seed) > 1500 {
+				seed = seed[:1500]
+			}
+			n := 0
+			for _, b := range cp.ByteSweep(seed, c.Pick(128, 1500)) {
+				for _, it := range c06Harvest(b, t, true) {
+					c06Check(c, it, "byte-sweep")
+					n++
+				}
+			}
+			c.Count("byte_sweep_layers_checked", n)
+			c.End()
+		}
 	}
 }
 
